@@ -314,7 +314,7 @@ def normalise(program):
         # a known function that only changed its place or visibility (method <-> module function, __x <-> _x) keeps its role
         stripped = nm.lstrip("_")
         for sc, names in known.get(h.module.name, {}).items():
-            if sc != "<assigned>" and any(k.lstrip("_") == stripped for k in names):
+            if not sc.startswith("<") and any(k.lstrip("_") == stripped for k in names):
                 return False
         if h.cls is not None and nm.endswith("_authentication"):
             return False  # SASL mechanisms are selected by name at run time
@@ -344,6 +344,29 @@ def normalise(program):
         nested_cache[key] = res
         return res
 
+    import builtins as _bi
+
+    def portable(h, into, alias):
+        """The helper's body can stand in a function of module `into`: every global it reads is a builtin, something `into` also
+        imports under the same name, or a function / constant of its own module (then written `alias.name` in the copy)."""
+        own = set(h.params)
+        for n in ast.walk(h.node):
+            if isinstance(n, ast.Name) and isinstance(n.ctx, ast.Store):
+                own.add(n.id)
+            elif isinstance(n, ast.arg):
+                own.add(n.arg)
+        for n in ast.walk(h.node):
+            if isinstance(n, ast.Name) and isinstance(n.ctx, ast.Load) and n.id not in own:
+                if hasattr(_bi, n.id):
+                    continue
+                if n.id in h.module.funcs or n.id in h.module.assigns or n.id in h.module.classes:
+                    continue  # rewritten to alias.name by the inliner
+                if n.id in h.module.imports and into.imports.get(n.id) == h.module.imports[n.id]:
+                    continue
+                return False
+        h._foreign_alias = alias
+        return True
+
     def resolve(call, caller):
         fn = call.func
         h = None
@@ -353,12 +376,23 @@ def normalise(program):
             if isinstance(fn, ast.Name) and mod is not None:
                 h = mod.funcs.get(fn.id)
             return h if is_unknown_helper(h) else None
-        if isinstance(fn, ast.Attribute) and isinstance(fn.value, ast.Name) and caller.cls is not None:
-            if caller.params and fn.value.id == caller.params[0] or fn.value.id == caller.cls.name:
-                for c in program.mro(caller.cls):
-                    if fn.attr in c.methods:
-                        h = c.methods[fn.attr]
-                        break
+        if isinstance(fn, ast.Attribute) and isinstance(fn.value, ast.Name) and caller.cls is not None and (
+                caller.params and fn.value.id == caller.params[0] or fn.value.id == caller.cls.name):
+            for c in program.mro(caller.cls):
+                if fn.attr in c.methods:
+                    h = c.methods[fn.attr]
+                    break
+        elif isinstance(fn, ast.Attribute) and isinstance(fn.value, ast.Name) and fn.value.id in caller.module.imports \
+                and caller.module.imports[fn.value.id][0] in ("module", "name"):
+            # a helper of another module of the package, called through the module (tools.quote(v))
+            imp = caller.module.imports[fn.value.id]
+            mn = (imp[1] if imp[0] == "module" else imp[1] + "." + imp[2]).split(".")[-1]
+            om = program.modules.get(mn)
+            if om is not None and om is not caller.module and fn.attr in om.funcs:
+                h = om.funcs[fn.attr]
+                if is_unknown_helper(h) and portable(h, caller.module, fn.value.id):
+                    return h
+                return None
         elif isinstance(fn, ast.Name):
             nested = local_def(caller, fn.id)
             if nested is not None:
@@ -372,6 +406,7 @@ def normalise(program):
         kn = set(known.get(m.name, {}).get("<assigned>", []))
         try:
             stats["constant_reads_inlined"] += inline.inline_constants(m, kn)
+            stats["constant_reads_inlined"] += inline.inline_class_constants(m, known.get(m.name, {}).get("<class-assigned>", {}))
         except Exception as e:
             skipped.append("constants %s: %s" % (m.name, type(e).__name__))
             continue
@@ -476,6 +511,19 @@ def normalise(program):
         for f in funcs:
             before = inl.count
             inl.run(f)
+            # callbacks handed to helpers: call them where the helper called them, then look at what that brought in
+            for _ in range(2):
+                if inl.count == before:
+                    break
+                try:
+                    nb_ = inline._beta(f.node) + inline.unroll_tables(f.node)
+                except Exception as e:
+                    skipped.append("callbacks %s: %s" % (f.qualname, type(e).__name__))
+                    break
+                if not nb_:
+                    break
+                stats["tables_unrolled"] += nb_
+                inl.run(f)
             if inl.count != before:
                 if f not in touched:
                     touched.append(f)
@@ -506,6 +554,15 @@ def normalise(program):
                         m.assigns[t.id] = st.value
     stats["inlined_call_sites"] = inl.count
     stats["helpers"] = dict(inl.inlined)
+    # what the copied bodies brought in is put into the same shapes as the rest
+    for f in touched:
+        try:
+            stats["annotations_stripped"] += inline.strip_annotations(f.node)
+            stats["assignments_simplified"] += inline.simplify_assignments(f.node)
+            stats["conditionals_lifted"] += inline.lift_conditionals(f.node)
+            stats["joins_threaded"] += inline.thread_joins(f.node)
+        except Exception as e:
+            skipped.append("post-inline %s: %s" % (f.qualname, type(e).__name__))
     for f in touched:
         inline.relink(f.node, getattr(f.node, "_parent", None))
         inline.renumber(f.node)
